@@ -92,7 +92,7 @@ type Writer struct {
 	bus         *Bus
 	flushFailAt int
 	hbFail      bool
-	park        func(point string, key any) // called inside Flush/Complete/Error (harness-owned windows)
+	park        func(point string, key any) // called inside Flush/Complete/Error/Heartbeat (harness-owned windows)
 
 	inCall   atomic.Int32
 	viaErr   atomic.Bool
@@ -169,6 +169,9 @@ func (w *Writer) Error(data []byte) {
 
 func (w *Writer) Heartbeat() error {
 	e, over := w.enter(CHeartbeat)
+	if w.park != nil {
+		w.park(PtWHeartbeat, w.Sub)
+	}
 	w.exit(CHeartbeat, "", e, over, w.hbFail, true)
 	if w.hbFail {
 		return errors.New("injected heartbeat failure")
